@@ -162,13 +162,14 @@ def analyse(chk, results, label=""):
                         % (res["waited_ms"], res["waited_ms"] // max(sc["cfg"]["interval_ms"], 1),
                            sc["cfg"]["interval_ms"], res["lost"][:3]))
         elif not res["quiescent"] and not excused and not res["lost"]:
-            what.append("final undo_log table differs from the expected one")
+            what.append("an accepted commit never got its successful DELETE within the bound (request lost; it names no row, or the final table differs from the expected one)")
         pcodes = [c for c in codes if c in PROPERTY_CODES]
         if pcodes and not what:
             what.append("; ".join(ERR[c] for c in pcodes))
         if what:
             n_viol += 1
-            chk.violation("%sscenario %s (%s): %s" % (label, sc["id"], sc["class"], "; ".join(what)),
+            tag = ("minimised from scenario %d, " % (sc["min_of"] - 1)) if sc.get("min_of") else ""
+            chk.violation("%sscenario %s (%s%s): %s" % (label, sc["id"], tag, sc["class"], "; ".join(what)),
                           dict(slim(res), model_disagreements=[ERR[c] for c in codes]), True)
         elif codes:
             corr_fail += 1
@@ -192,8 +193,10 @@ def run(chk, scen_file=None, repeat=1):
     if scen_file is None:
         data, secs = vlib.run_harness("workerrun", chk.tmp("worker.json"), timeout=1500, seed=chk.seed, n=n, nf=nf,
                                       par=4 if quick else 6)
-        results = data["results"]
+        results = data["results"] or []
+        skipped = data.get("skipped", 0)
     else:
+        skipped = 0
         results, secs = [], 0.0
         for k in range(repeat):
             data, s = vlib.run_harness("workerrun", chk.tmp("worker%d.json" % k), timeout=600, scen=scen_file)
@@ -226,6 +229,7 @@ def run(chk, scen_file=None, repeat=1):
     chk.coverage.update({
         "trusted_base": TRUSTED,
         "evaluations": len(results),
+        "scenarios_not_explored_after_first_violations": skipped,
         "distinct_nontrivial": vlib.distinct([(r["scen"]["cfg"], r["scen"]["rows"], r["scen"]["reqs"], r["scen"]["conn_pat"],
                                                r["scen"]["del_pat"], r["scen"]["res_mode"])
                                               for r in results if nontrivial(r)]),
